@@ -354,7 +354,8 @@ def run(ctx, spec):
         out = run_cases(admdrv, [small], shards=1)[0]
         msgs = [m for t, m in spec.oracle(small, split_ops(small, out)) if t == tag]
         ctx.violation(msgs[0] if msgs else msg,
-                      dict(kind='oracle', tag=tag, script=small, libadm_output=out, original_case=cases[k]), tag=tag)
+                      dict(kind='oracle', tag=tag, script=small, libadm_output=out, original_case=cases[k],
+                           decoded=spec.describe(small) if hasattr(spec, 'describe') else None), tag=tag)
     if disagreements and not found:
         k = disagreements[0]
 
